@@ -1730,6 +1730,32 @@ class CurveEngineC06:
                       {"region": "all"}, {"region": "baseline"}][
                           (index // 9) % 4]}}
             ops = ([a_, b_] if (index // 9) % 2 else [b_, a_]) + ops
+        elif index % 9 == 1:
+            # recorded curves on which segment discovery gives up unless
+            # the drift of the whole curve was removed first: give-up
+            # pipeline, drift pipeline, give-up pipeline again (what a step
+            # learned about the curve in one pipeline must not reach the
+            # next). The run consists of these requests only.
+            cfg = {"kind": "recorded", "enum": 0,
+                   "file": "fmt-jpk-fd_single_bad_2017-01-16_%d.jpk-force"
+                           % (3 + (index // 9) % 2)}
+            A_ = ["compute_tip_position", "correct_tip_offset",
+                  "correct_split_approach_retract"]
+            B_ = ["compute_tip_position", "correct_tip_offset",
+                  "correct_force_slope", "correct_split_approach_retract",
+                  "correct_force_offset"]
+            ob_ = {"correct_force_slope": {"region": "all",
+                                           "strategy": "drift"}}
+            rt_ = ["apply", "fit_kw", "details"][(index // 18) % 3]
+            ops = [{"op": "prep", "route": "apply", "steps": list(A_),
+                    "options": {}},
+                   {"op": "prep", "route": rt_, "steps": list(B_),
+                    "options": copy.deepcopy(ob_)},
+                   {"op": "prep", "route": "apply", "steps": list(A_),
+                    "options": {}},
+                   {"op": "prep", "route": "apply", "steps": list(B_),
+                    "options": copy.deepcopy(ob_)}]
+            xproc = False
         return {"config": {"curve": cfg, "swarm": swarm, "xproc": xproc},
                 "ops": ops}
 
